@@ -207,7 +207,7 @@ Proof.
   apply gk_pick_outside. lia.
 Qed.
 
-Definition gk_Wf (wts : list F) (mf : F) : nat -> nat -> F := fun c q => nth q wts 0 * mf.
+Definition gk_Wf (wts : list F) (mf : list F) : nat -> nat -> F := fun c q => nth q wts 0 * nth c mf 0.
 
 Lemma gk_assemble_inv knots p nc nq pts wts mf At Bt Ct Dt Et S :
   gk_assemble F K knots p nc nq pts wts mf At Bt Ct Dt Et = SpOk S ->
@@ -526,7 +526,7 @@ Proof.
   unfold gk_solve_mode_func. intros H1 H2 H3 Ht. apply (gk_solve_rhs_linear _ _ _ _ _ _ _ _ _ _ _ _ _ H1 H2 H3).
   intros i Hi. unfold gk_rhs_func.
   rewrite !(gk_nth_map_seq (fun a => gsum nc (fun c => gsum nq (fun q =>
-        nth q wts 0 * mf * gk_phi F K (gka_p F S) (gka_tab F S) 0 a c q * gk_at F K pts c q * gk_at F K (gka_E F S) c q * gk_at F K _ c q))) 0 _ _ i Hi).
+        nth q wts 0 * nth c mf 0 * gk_phi F K (gka_p F S) (gka_tab F S) 0 a c q * gk_at F K pts c q * gk_at F K (gka_E F S) c q * gk_at F K _ c q))) 0 _ _ i Hi).
   rewrite <- gs_lin2. apply gs_ext. intros c Hc. rewrite <- gs_lin2. apply gs_ext. intros q Hq.
   rewrite (Ht c q Hc Hq). ring.
 Qed.
@@ -540,7 +540,7 @@ Theorem gk_rhs_func_spec S nc nq pts wts mf rhot lo hi i : (i < hi - lo)%nat ->
 Proof.
   intros Hi. unfold gk_rhs_func.
   rewrite (gk_nth_map_seq (fun a => gsum nc (fun c => gsum nq (fun q =>
-        nth q wts 0 * mf * gk_phi F K (gka_p F S) (gka_tab F S) 0 a c q * gk_at F K pts c q * gk_at F K (gka_E F S) c q
+        nth q wts 0 * nth c mf 0 * gk_phi F K (gka_p F S) (gka_tab F S) 0 a c q * gk_at F K pts c q * gk_at F K (gka_E F S) c q
         * gk_at F K rhot c q))) 0 _ _ i Hi).
   reflexivity.
 Qed.
